@@ -202,6 +202,19 @@ fn slow_natural(ctx: &mut Ctx, prop: &'static str, classes: &'static [&'static s
             break;
         }
         let i = j + ctx.shard as u64 * 5; // different shards take different variants
+        if j == 0 {
+            // commands whose output exceeds a pipe buffer: the worker has to drain stdout while the command runs
+            let mut case = GraphCase::new(3, [0b100_010u64, 0b000_000_110, 0b100_110][(i % 3) as usize]);
+            case.big = true;
+            case.markers = false;
+            case.threads = [1, 2][(i % 2) as usize];
+            let spec = Spec::Free { delay: None };
+            let run = exec(ctx, &case, spec.clone(), true);
+            account(ctx, &run);
+            ctx.count("big_command_output_executions", 1);
+            ctx.distinct.insert(case.hash() ^ run.trace_hash.rotate_left(13));
+            report(ctx, prop, classes, &case, &run, &spec);
+        }
         let mut case = GraphCase::new(3, [0b100_010u64, 0b000_000_110, 0b100_110][(i % 3) as usize]); // chain, fan-out, triangle
         case.slow_ms = 900;
         case.markers = true;
